@@ -455,6 +455,8 @@ func (cm *clientMedia) writePacketRTCP(pkt rtcp.Packet) error {
 	maxPlainPacketSize := cm.c.MaxPacketSize
 	if cm.srtpOutCtx != nil {
 		maxPlainPacketSize -= srtcpOverhead
+		// the master key identifier, when present, is appended to every packet
+		maxPlainPacketSize -= len(cm.srtpOutCtx.mki)
 	}
 
 	if len(buf) > maxPlainPacketSize {
